@@ -82,7 +82,7 @@ def reset_generator_globals():
 
 
 def generate(doc, root, output_package="cli", core_package=None, force=True, naming="operationId",
-             fmt="json", spec_name=None, no_postprocess=True, reset=True, around=None):
+             fmt="json", spec_name=None, no_postprocess=True, reset=True, around=None, spec_path=None):
     """Run the real generator on `doc` into project root `root`.
     Returns (files | None, exception | None)."""
     from pyopenapi_gen.generator.client_generator import ClientGenerator
@@ -94,7 +94,12 @@ def generate(doc, root, output_package="cli", core_package=None, force=True, nam
     spec_dir = os.path.join(os.path.dirname(root.rstrip("/")), "specs-" + os.path.basename(root.rstrip("/")))
     os.makedirs(spec_dir, exist_ok=True)
     ext = "json" if fmt == "json" else "yaml"
-    spec_path = os.path.join(spec_dir, spec_name or ("spec." + ext))
+    fixed_spec = spec_path is not None
+    if fixed_spec:
+        # the user's own spec file, edited in place between runs: same path, new content
+        os.makedirs(os.path.dirname(spec_path), exist_ok=True)
+    else:
+        spec_path = os.path.join(spec_dir, spec_name or ("spec." + ext))
     write_spec(doc, spec_path, fmt)
     ns = {s.value: s for s in NamingStrategy}[naming]
     try:
